@@ -397,7 +397,8 @@ func buildC19(cfg *mon.Config) []*mon.Sub {
 			// rare paths first: long argument lists, string->date conversions, error paths
 			directed := []string{"Sum(a, b, c, d, l, a, b, c, d, l, z)", "Max(a, b, c, d, l, z, a, b, c) - Min(a, b, c, d, l, z, a, b, c, d)", "Array(a, b, c, d, l, z, a, b, c, d, l, z)[a % 12]",
 				"DayOfWeek(ds)", "DayOfWeek(ds) * 10 + DayOfWeek(dt)", "If(DayOfWeek(ds) > 3, s, t) + ds", "dt > ds", "Contains(s + t, t)", "a / z", "arr[a]", "nosuch(a) + b", "a IN arr OR b NOT IN arr",
-				"s + a + x + f + p", "Sqrt(x) + Abs(d) + Round(f)", "TimeSpan(a, b, c) > TimeSpan(b)", "Date(2000 + a, b, c) < dt"}
+				"s + a + x + f + p", "Sqrt(x) + Abs(d) + Round(f)", "TimeSpan(a, b, c) > TimeSpan(b)", "Date(2000 + a, b, c) < dt",
+				"a << d", "l >> d", "arr[d]", "s[99]", "a % z", "Choose(9, a, b)", "Min(a)", "x AND p", "-s", "NOT x", "n[1] + a", "a IN s", "(a << d) + (b >> d)", "If(p, a << d, b)"}
 			for i := 0; i < cfg.N(150, 4000)+len(directed); i++ {
 				var t *model.Node
 				if r.Bool() {
